@@ -36,6 +36,12 @@ var k5pem []byte
 //go:embed k6.key
 var k6pem []byte
 
+// k7: RSA-2048 with public exponent 3 (old vendor keys; the exponent for which a verifier that
+// parses the PKCS#1 block instead of comparing it can be forged against without the private key)
+//
+//go:embed k7.key
+var k7pem []byte
+
 func parse(b []byte) *rsa.PrivateKey {
 	blk, _ := pem.Decode(b)
 	k, err := x509.ParsePKCS8PrivateKey(blk.Bytes)
@@ -48,23 +54,23 @@ func parse(b []byte) *rsa.PrivateKey {
 var (
 	once           sync.Once
 	k1, k2, k3, k4 *rsa.PrivateKey
-	k5, k6         *rsa.PrivateKey
+	k5, k6, k7     *rsa.PrivateKey
 )
 
 func load() {
 	once.Do(func() {
 		k1, k2, k3, k4 = parse(k1pem), parse(k2pem), parse(k3pem), parse(k4pem)
-		k5, k6 = parse(k5pem), parse(k6pem)
+		k5, k6, k7 = parse(k5pem), parse(k6pem), parse(k7pem)
 	})
 }
 
-// K returns key n: 1,2 = RSA-2048, 3 = RSA-3072, 4 = RSA-4096, 5 = RSA-2050, 6 = RSA-2047.
+// K returns key n: 1,2 = RSA-2048, 3 = RSA-3072, 4 = RSA-4096, 5 = RSA-2050, 6 = RSA-2047, 7 = RSA-2048 with e=3.
 func K(n int) *rsa.PrivateKey {
 	load()
-	return []*rsa.PrivateKey{nil, k1, k2, k3, k4, k5, k6}[n]
+	return []*rsa.PrivateKey{nil, k1, k2, k3, k4, k5, k6, k7}[n]
 }
 
-func PEM(n int) []byte { return [][]byte{nil, k1pem, k2pem, k3pem, k4pem, k5pem, k6pem}[n] }
+func PEM(n int) []byte { return [][]byte{nil, k1pem, k2pem, k3pem, k4pem, k5pem, k6pem, k7pem}[n] }
 
 var (
 	NotBefore = time.Date(2020, 1, 1, 0, 0, 0, 0, time.UTC)
